@@ -598,6 +598,54 @@ def r_xp_elements(ck: Checker, modname: str = XP, rule: str = "R-XP-ELEMENTS", m
         ck.incomplete(rule, None, None, f"ASTXpathElement constructions in the transformer: {n_build} compiled steps, {n_mark} anywhere-markings (at least one of each expected)")
 
 
+def r_step_part_kinds(ck: Checker, modname: str = XP, rule: str = "R-XP-ELEMENTS") -> None:
+    """`element` tells the parts of a step apart by their run-time type (a class -> the class, an int -> the index, anything else -> the
+    field name).  So the callback of the index part must return an int on every path and the callback of the field part a str: a `None`
+    for "no index" would be taken for a field name and overwrite the `@field` parsed before it (positive pattern: a None / non-int
+    return in index_spec)."""
+    c = ck.repo.cls(modname, "XPathTransformer")
+    el = next((st for st in c.node.body if isinstance(st, ast.FunctionDef) and st.name == "element"), None)
+    ix = next((st for st in c.node.body if isinstance(st, ast.FunctionDef) and st.name == "index_spec"), None)
+    if el is None or ix is None:
+        raise Unsupported("XPathTransformer.element / index_spec not found")
+    by_type = any(isinstance(x, ast.Call) and dotted(x.func) == "isinstance" and len(x.args) == 2 and norm(x.args[1]) == "int" for x in ast.walk(el)) or \
+        any(isinstance(x, ast.MatchClass) and norm(x.cls) == "int" for x in ast.walk(el))
+    if not by_type:
+        raise Unsupported("XPathTransformer.element does not classify the parts of a step by isinstance(..., int)", el)
+
+    def arms(e: ast.expr) -> list[ast.expr]:
+        if isinstance(e, ast.IfExp):
+            return arms(e.body) + arms(e.orelse)
+        if isinstance(e, ast.BoolOp):
+            return [a for v in e.values for a in arms(v)]
+        return [e]
+    what = "XPathTransformer.index_spec returns an int on every path (element() recognises the index part of a step by its type)"
+    rets = [r for r in ast.walk(ix) if isinstance(r, ast.Return)]
+    bad = None
+    unknown = None
+    for r in rets:
+        for a in (arms(r.value) if r.value is not None else [ast.Constant(value=None)]):
+            if isinstance(a, ast.Constant) and a.value is None:
+                bad = r
+            elif isinstance(a, ast.Constant) and isinstance(a.value, int) and not isinstance(a.value, bool):
+                continue
+            elif isinstance(a, ast.UnaryOp) and isinstance(a.operand, ast.Constant) and isinstance(a.operand.value, int):
+                continue
+            elif isinstance(a, ast.Call) and dotted(a.func) == "int":
+                continue
+            else:
+                unknown = a
+    falls_off = not isinstance(ix.body[-1], (ast.Return, ast.Raise, ast.If, ast.Match, ast.Try))
+    if bad is not None or falls_off:
+        ck.violation(rule, (c.mod.rel, "XPathTransformer.index_spec"), bad or ix, what, positive=True,
+                     construct="XPathTransformer.index_spec returns None on some path — element() takes a part that is neither a class nor an int for the field name, "
+                     "so `@f[]C` loses its `@f`")
+    elif unknown is not None:
+        raise Unsupported(f"index_spec returns {norm(unknown)[:40]}", ix)
+    else:
+        ck.holds(rule, (c.mod.rel, "XPathTransformer.index_spec"), ix, what, returns=len(rets))
+
+
 def r_xp_once(ck: Checker) -> None:
     f = ck.repo.func(XP, "ASTXpath.findall")
     fn = f.node
@@ -804,11 +852,13 @@ def run(ck: Checker) -> None:
     ck.guard("R-XP-ELEMENTS", lambda: r_xp_elements(ck))
     ck.guard("R-XP-ONCE", lambda: r_xp_once(ck))
     ck.guard("R-XP-ELEMENTS", lambda: r_empty_step(ck))
+    ck.guard("R-XP-ELEMENTS", lambda: r_step_part_kinds(ck))
     from . import state_rules as S
     ck.guard("R-XP-SHARED", lambda: S.r_stateless(ck, "R-XP-SHARED", XP, "ASTXpath", ("match", "findall"), "a compiled xpath is interned per text and used for any tree"))
     ck.guard("R-XP-SHARED", lambda: S.r_stateless(ck, "R-XP-SHARED", XP, "XPathTransformer", None, "one transformer instance serves every parse, also after a failed one"))
     from .c17 import r_reusable
     ck.guard("R-XP-ELEMENTS", lambda: r_reusable(ck))
     ck.guard("R-XP-ANYWHERE", lambda: S.r_pruned_walk(ck, "R-XP-ANYWHERE", [(XP, "ASTXpath.findall")], "a '//' step has every descendant as a candidate"))
+    ck.guard("R-XP-SHARED", lambda: S.r_unstable_key(ck, "R-XP-SHARED", [(XP, "ASTXpath.match"), (XP, "ASTXpath.findall"), (XP, "ASTXpath.find")], "match and findall look at the tree they are given"))
     ck.require_count("R-XP-SHARED", 3)
     ck.require_count("R-XP-ANYWHERE", 3)
